@@ -176,9 +176,10 @@ pub fn roll_case_strategy(profile: Profile) -> BoxedStrategy<LogCase> {
     // case continues behind the fill with appends that cross the switch and a second compaction pointer near the end
     let prefix = prop_oneof![
         1 => Just((vec![], vec![])),
-        1 => (300u16..6000, any::<u16>(), 1u16..600, any::<bool>(), any::<u16>()).prop_map(|(n, at, cross, batch, at2)| (
-            vec![LogOp::AppendMany { n, size: SizeClass::Small(70), batch: true }, LogOp::CompactPointer { at }],
-            vec![LogOp::AppendMany { n: 400 + cross, size: SizeClass::Small(50), batch }, LogOp::CompactPointer { at: at2 }],
+        2 => (300u16..6000, any::<u16>(), any::<u16>(), 1u16..600, any::<bool>(), any::<u16>(), any::<u16>()).prop_map(|(n, at, atb, cross, batch, at2, at3)| (
+            // (a compaction is two pointer requests: the manager defers one while it is getting ready to load)
+            vec![LogOp::AppendMany { n, size: SizeClass::Small(70), batch: true }, LogOp::CompactPointer { at }, LogOp::CompactPointer { at: atb }],
+            vec![LogOp::AppendMany { n: 400 + cross, size: SizeClass::Small(50), batch }, LogOp::CompactPointer { at: at2 }, LogOp::CompactPointer { at: at3 }],
         )),
     ];
     (any::<bool>(), prop_oneof![3 => 0u16..6, 3 => 6u16..140, 2 => 140u16..400], prefix, prop::collection::vec(op, 4..14))
